@@ -100,24 +100,9 @@ pub fn prefixes(text: &str, rng: &mut Rng) -> Vec<String> {
     out
 }
 
-fn classify(msg: &str, text: &str) -> String {
+fn classify(msg: &str, _text: &str) -> String {
     // class = source location of the panic: two different panics are two different findings
     let loc = msg.rsplit(" @ ").next().unwrap_or("");
-    // recorded finding: pulldown-cmark 0.13.0 emits the events after a wikilink `[[name|]]` (pipe,
-    // empty display text) twice, the first time as children of the link; markdown.rs then slices
-    // the source by a Text event's length at a cursor that has already moved past that event
-    if loc.ends_with("parsers/markdown.rs:256") && msg.contains("out of range for slice") && text.contains("|]]") {
-        return "c01-md-wikilink-empty-alias".into();
-    }
-    // recorded finding: pulldown-cmark's tab-expansion Text event with an empty range gives an
-    // Unlintable token that ends after the end of the text (c02-md-synthetic-text); the Mask-based
-    // Markdown front-ends (git commit, Literate Haskell) then read its content
-    if loc.ends_with("harper-core/src/span.rs:67") && msg.contains("Could not get position") {
-        let synthetic = guarded(|| crate::c02md::has_synthetic_text(&crate::c02md::events_of(text))).unwrap_or(false);
-        if synthetic {
-            return "c01-md-synthetic-text".into();
-        }
-    }
     format!("panic@{}", loc)
 }
 
